@@ -2,7 +2,7 @@
 import json, os, re, copy
 import vlib, rtlib
 
-WHATS = {"cache-incoherent-when-quiet", "cached-read-went-backwards", "lost-wakeup", "lost-wakeup-queue"}
+WHATS = {"cache-incoherent-when-quiet", "cached-read-went-backwards", "lost-wakeup", "lost-wakeup-queue", "cached-ctx-not-cancelled", "cached-ctx-cancelled-spuriously"}
 
 
 def run(ctx):
